@@ -12,6 +12,9 @@ import Lean.Data.Json
 import Lessm.Model.Batch
 import Lessm.Model.Term
 import Lessm.Model.Import
+import Lessm.Gen.LexRules
+import Lessm.Gen.Words
+import Lessm.Gen.BigWords
 import Lessm.Spec.VarsSpec
 import Lessm.Spec.MediaSpec
 import Lessm.Model.Mixin
@@ -609,6 +612,56 @@ def load (payload : String) : String :=
     | .error e => "bad-payload " ++ e
 end ImpIO
 
+namespace Lex0IO
+open Lean Lessm.Lex0
+
+def tables : Tables :=
+  { rules := Lessm.Gen.lexRules, literals := Lessm.Gen.literals.toList, reserved := Lessm.Gen.reserved,
+    properties := Lessm.Gen.cssPropertiesEnc.splitOn "\n",
+    elements := Lessm.Gen.domElementsEnc.splitOn "\n" }
+
+def tokJson (p : Item) : Json :=
+  Json.arr #[Json.str p.1.type, Json.str p.1.value, Json.num p.1.line, Json.str p.2.2.cur, Json.bool p.2.2.inProp]
+
+def run (payload : String) : String :=
+  match Json.parse payload with
+  | .error e => "bad-json " ++ e
+  | .ok j =>
+    match j.getStr? with
+    | .error e => "bad-json " ++ e
+    | .ok text =>
+      match lexAll tables {} text.toList with
+      | .ok ts => (Json.mkObj [("toks", Json.arr ((ts.filter (·.2.1)).toArray.map tokJson))]).compress
+      | .illegal ts c l => (Json.mkObj [("toks", Json.arr ((ts.filter (·.2.1)).toArray.map tokJson)), ("illegal", Json.str (String.singleton c)), ("line", Json.num l)]).compress
+      | .stuck ts => (Json.mkObj [("toks", Json.arr ((ts.filter (·.2.1)).toArray.map tokJson)), ("stuck", Json.bool true)]).compress
+end Lex0IO
+
+namespace FrontIO
+open Lean Lessm.Lex0
+
+def run (payload : String) : String :=
+  match Json.parse payload with
+  | .error e => "bad-json " ++ e
+  | .ok j =>
+    match j.getStr? with
+    | .error e => "bad-json " ++ e
+    | .ok text =>
+      let (toks, lexres) : List Tok × String := match frontEnd Lex0IO.tables Gen.significantWs text with
+        | .ok ts => (ts, "ok")
+        | .illegal ts c l => (ts, "illegal " ++ String.singleton c ++ " " ++ toString l)
+        | .stuck ts => (ts, "stuck")
+      let ids := toks.map (fun t => Gen.terminals.idxOf t.type)
+      let parse : String :=
+        if lexres != "ok" then "-"
+        else if toks.isEmpty then "accept"          -- p_error(None) before any token: an empty sheet (parser.py)
+        else match LR.recognise Gen.prods lrAction lrGoto 0 Gen.startNt ids with
+          | .accept => "accept"
+          | .error k => "error " ++ toString k ++ " " ++ (match toks[k]? with | some t => t.type ++ " " ++ toString t.line | none => "eof")
+          | .stuck => "stuck"
+      (Json.mkObj [("toks", Json.arr (toks.toArray.map (fun t => Json.arr #[Json.str t.type, Json.str t.value, Json.num t.line]))),
+                   ("lex", Json.str lexres), ("parse", Json.str parse)]).compress
+end FrontIO
+
 def handle (op : String) (payload : String) : String :=
   let args := (payload.splitOn " ").filter (· ≠ "")
   match op, args with
@@ -645,6 +698,8 @@ def handle (op : String) (payload : String) : String :=
     | "c18.scan", [j] => StrIO.run j
     | "c11.fmt", [j] => PrintIO.run j
     | "c16.run", [j] => BatchIO.run j
+    | "c12.lex0", [j] => Lex0IO.run j
+    | "c15.text", [j] => FrontIO.run j
     | "c14.load", [j] => ImpIO.load j
     | "c20.vars", [j] => TermIO.vars j
     | "c20.imports", [j] => TermIO.imports j
